@@ -316,6 +316,16 @@ def gen_cases(tier, seed):
                     cases.append({'family': 'e2e', 'seed': rng.randrange(1 << 30), 'kind': kind, 'end': end, 'multi': multi,
                                   'conc': rng.choice([1, 1, 2]), 'size': rng.choice([4, 5]) * 1024 * 1024 + rng.choice([0, 12345]),
                                   'max': 1024 * 1024.0})
+    # bodies smaller than the limiter's 256 KiB read threshold (their bytes are charged when the body is closed): many small
+    # transfers through one manager, and multipart transfers with small parts
+    for rep in range(1 if quick else 4):
+        for kind, ends in (('upload', ('path', 'seekable', 'nonseekable')), ('download', ('path', 'seekable', 'nonseekable'))):
+            for end in ends:
+                for io in ((64 * 1024, 256 * 1024) if kind == 'download' else (64 * 1024,)):
+                    cases.append({'family': 'e2e', 'seed': rng.randrange(1 << 30), 'kind': kind, 'end': end, 'multi': False, 'conc': rng.choice([1, 2]), 'io': io,
+                                  'size': rng.choice([190, 100, 255]) * 1024 + rng.choice([0, 77]), 'count': rng.choice([24, 40]), 'max': 1024 * 1024.0})
+                    cases.append({'family': 'e2e', 'seed': rng.randrange(1 << 30), 'kind': kind, 'end': end, 'multi': True, 'conc': rng.choice([1, 2]), 'io': io,
+                                  'part': rng.choice([100, 200]) * 1024, 'size': 4 * 1024 * 1024 + 4242, 'max': 1024 * 1024.0})
     return cases
 
 
@@ -341,17 +351,23 @@ def run_e2e(case):
     bw.TimeUtils = TU
     try:
         size = case['size']
+        count = case.get('count', 1)  # 'many' runs: that many transfers of `size` bytes each through one manager
         t = {'kind': case['kind'], 'size': size}
         t['src' if case['kind'] == 'upload' else 'dst'] = case.get('end', 'path')
         MB = 1024 * 1024
+        part = case.get('part', MB)  # multipart runs: part size (may be below the limiter's 256 KiB read threshold)
         conc = case.get('conc', 1)
-        cfg = dict(max_bandwidth=int(case['max']), io_chunksize=64 * 1024, max_request_concurrency=conc)
+        io_chunk = case.get('io', 64 * 1024)
+        cfg = dict(max_bandwidth=int(case['max']), io_chunksize=io_chunk, max_request_concurrency=conc)
         if case.get('multi'):
-            cfg.update(multipart_threshold=MB, multipart_chunksize=MB)
+            cfg.update(multipart_threshold=part, multipart_chunksize=part)
         else:
             cfg.update(multipart_threshold=64 * MB)
-        spec = {'seed': case['seed'], 'config': cfg, 'transfers': [t], 'body_read_sizes': [16384], 'min_part': MB}
+        import copy as _copy
+
+        spec = {'seed': case['seed'], 'config': cfg, 'transfers': [_copy.deepcopy(t) for _ in range(count)], 'body_read_sizes': [16384], 'min_part': part}
         burst = (2 * conc + 1) * 256 * 1024
+        size = size * count
 
         def ev(obs):
             viol = []
@@ -362,12 +378,15 @@ def run_e2e(case):
             dur = sim.now
             need = (size - burst) / (1.25 * case['max'])
             if dur < need:
-                viol.append(V(f'e2e {case["kind"]} ({case.get("end")}, {"multipart" if case.get("multi") else "single"}) of {size} bytes at max_bandwidth={case["max"]} took {dur:.3f}s of virtual time; the limit '
-                              f'requires at least {need:.3f}s', sym='e2e-not-throttled', family='e2e'))
+                body = (part if case.get('multi') else case['size'])
+                viol.append(V(f'e2e {case["kind"]} ({case.get("end")}, {"multipart" if case.get("multi") else "single"}, {count} transfer(s), bodies of {body} bytes, '
+                              f'io_chunksize {io_chunk}) of {size} bytes in total at max_bandwidth={case["max"]} took {dur:.3f}s of virtual time; the limit '
+                              f'requires at least {need:.3f}s', sym='e2e-not-throttled', family='e2e', kind=case['kind'],
+                              body_below_read_threshold=body < 256 * 1024, io_chunk_below_read_threshold=io_chunk < 256 * 1024))
             nreq = len([e for e in obs.events if e['kind'] == 'api.begin' and e['op'] in ('UploadPart', 'GetObject', 'PutObject')])
             st = {'e2e_runs': 1, 'e2e_sleeps': len(sim.sleeps), 'e2e_' + case['kind'] + '_' + str(case.get('end')) + ('_multi' if case.get('multi') else '_single'): 1,
                   'e2e_data_requests': nreq}
-            if bool(case.get('multi')) != (nreq > 1):
+            if bool(case.get('multi')) != (nreq > count):
                 return viol, st, False, {'note': 'mode not as intended', 'requests': nreq}
             return viol, st, need > 0, {'virtual_duration': dur, 'required': need, 'sleeps': len(sim.sleeps)}
 
